@@ -1,4 +1,5 @@
 import os
+from concurrent.futures import ThreadPoolExecutor
 
 from . import core
 from .props import HDR, standard
@@ -30,23 +31,33 @@ def _extra_replace():
 
 
 def run(ctx):
-    n = {"quick": 600, "thorough": 12000}[ctx.tier]
+    n = {"quick": 250, "thorough": 2500}[ctx.tier]
     pyranges = os.environ.get("VERIF_C10_PYDIR", os.path.join(core.REPO, "sdk", "python", "arvados"))
 
     def stages(ctx, mult, suffix, off):
         rep = _extra_replace()
         r1 = dict(rep)
         r1["sdk/go/arvados/zz_verif_c10gen_test.go"] = _gen(ctx, "arvados")
-        ctx.stage("fs" + suffix, "sdk/go/arvados", "arvados", ["C10/zz_verif_c10fs_test.go"], "TestVerifC10FS$",
-                  n * mult, hdr("FS"), seed_offset=off, shard=50, replace=r1, env={"VERIF_STAGE": "fs" + suffix})
         r2 = dict(rep)
         r2["sdk/go/manifest/zz_verif_c10gen_test.go"] = _gen(ctx, "manifest")
-        ctx.stage("gm" + suffix, "sdk/go/manifest", "manifest", ["C10/zz_verif_c10gm_test.go"], "TestVerifC10GM$",
-                  n * mult, hdr("GM"), seed_offset=off, shard=50, replace=r2, env={"VERIF_STAGE": "gm" + suffix})
-        ctx.stage("py" + suffix, "sdk/go/manifest", "manifest", ["C10/zz_verif_c10gm_test.go"], "TestVerifC10PY$",
-                  n * mult, hdr("PY"), seed_offset=off, shard=150, replace=r2,
-                  env={"VERIF_STAGE": "py" + suffix, "VERIF_C10_PYDRIVER": os.path.join(HARNESS, "py_driver.py"),
-                       "VERIF_C10_PYDIR": pyranges})
+
+        def fs_part():
+            ctx.stage("fs" + suffix, "sdk/go/arvados", "arvados", ["C10/zz_verif_c10fs_test.go"], "TestVerifC10FS$",
+                      n * mult, hdr("FS"), seed_offset=off, shard=64, replace=r1, env={"VERIF_STAGE": "fs" + suffix})
+
+        def gm_part():
+            ctx.stage("gm" + suffix, "sdk/go/manifest", "manifest", ["C10/zz_verif_c10gm_test.go"], "TestVerifC10GM$",
+                      n * mult, hdr("GM"), seed_offset=off, shard=64, replace=r2, env={"VERIF_STAGE": "gm" + suffix})
+            ctx.stage("py" + suffix, "sdk/go/manifest", "manifest", ["C10/zz_verif_c10gm_test.go"], "TestVerifC10PY$",
+                      n * mult, hdr("PY"), seed_offset=off, shard=160, replace=r2,
+                      env={"VERIF_STAGE": "py" + suffix, "VERIF_C10_PYDRIVER": os.path.join(HARNESS, "py_driver.py"),
+                           "VERIF_C10_PYDIR": pyranges})
+
+        # the two packages are independent: run their stages side by side
+        with ThreadPoolExecutor(max_workers=2) as ex:
+            for f in [ex.submit(fs_part), ex.submit(gm_part)]:
+                f.result()
+        ctx.stages.sort(key=lambda s: s.name)
         if ctx.tier == "thorough" and suffix == "" and ctx.replay is None:
             # exhaustive small scope: 1-4 blocks of size 0-3, every range inside the stream, all three codecs
             ctx.stage("fsexh", "sdk/go/arvados", "arvados", ["C10/zz_verif_c10fs_test.go"], "TestVerifC10FS$",
